@@ -435,7 +435,13 @@ fn results_s(sets: &[GraphColoredVertices], order: &[BddVariable], expect_vars: 
                 // must be usable together with sets of a graph built directly from the network
                 let ok = catch_unwind(AssertUnwindSafe(|| {
                     let u = g0.mk_unit_colored_vertices();
-                    s.intersect(&u).as_bdd() == s.as_bdd() || !s.is_subset(&u)
+                    // the same BDD wrapped by the graph built from the network must behave like the
+                    // returned object (projections to states / colours; `==` also compares the order
+                    // in which the contexts list their parameter variables, which legitimately differs)
+                    let fresh = u.copy(s.as_bdd().clone());
+                    let same_views = fresh.vertices().as_bdd() == s.vertices().as_bdd()
+                        && fresh.colors().as_bdd() == s.colors().as_bdd();
+                    same_views && (s.intersect(&u).as_bdd() == s.as_bdd() || !s.is_subset(&u))
                 }));
                 if !matches!(ok, Ok(true)) {
                     return "ENCODING".to_string();
